@@ -71,7 +71,7 @@ pub fn batch(index: u64, mut rng: Rng, tier: Tier) -> Outcome {
     let mut last_structured: Option<Prog> = None;
     let mut agreed = 0u64;
     for pi in 0..nprog {
-        let p = match rng.weighted(&[45, 35, 15, 5]) {
+        let p = match rng.weighted(&[40, 30, 12, 4, 14]) {
             0 => gen_single_op(&mut rng),
             1 => {
                 let p = gen_structured(&mut rng);
@@ -82,7 +82,8 @@ pub fn batch(index: u64, mut rng: Rng, tier: Tier) -> Outcome {
                 Some(b) => mutate(&mut rng, b),
                 None => gen_structured(&mut rng),
             },
-            _ => gen_stack_edge(&mut rng),
+            3 => gen_stack_edge(&mut rng),
+            _ => gen_mem_edge(&mut rng),
         };
         if p.code.first() == Some(&0xEF) || p.code.len() > 20_000 {
             continue;
